@@ -1,1 +1,410 @@
-//! C16 harnesses (Engine K)
+//! C16 (transfer-fee tokens), clause "epoch choice" — Engine K.
+//!
+//! Which of the two scheduled fees of a Token-2022 `TransferFeeConfig` extension the program applies:
+//! `newer_transfer_fee` once the cluster epoch has reached `newer_transfer_fee.epoch` (>=), `older_transfer_fee`
+//! before. The Anchor side (`util::v2::token::get_epoch_transfer_fee`) unpacks the mint with spl-token-2022 and calls
+//! `TransferFeeConfig::get_epoch_fee`; the Pinocchio side (`pinocchio::ported::util_token::pino_get_epoch_transfer_fee`,
+//! private) has its own TLV parser (`pinocchio::state::token::extensions::parse_token_extensions`) and an open-coded
+//! epoch comparison. Both run here on the *same* mint account bytes: a real Token-2022 mint image (82-byte base,
+//! padding, account type, one TLV entry of 108 value bytes) whose entry type number, both authorities, withheld amount
+//! and both (epoch, maximum_fee, basis points) triples are symbolic, under a symbolic clock epoch.
+//!
+//! Sizes are concrete (one TLV entry, length field pinned to 108), so no loop bound depends on a symbolic value.
+//! The conversions that consume the selected fee (fee-included / fee-excluded amounts) are decided by Engine M.
+use crate::common::*;
+use anchor_lang::prelude::*;
+use anchor_spl::token_2022::spl_token_2022;
+use anchor_spl::token_2022::spl_token_2022::extension::transfer_fee::TransferFee;
+use anchor_spl::token_interface::Mint as IMint;
+
+/// offset of the TLV area in a Token-2022 mint account: 82-byte base, zero padding up to 165, account-type byte
+const MINT_TLV_START: usize = 166;
+/// `size_of::<TransferFeeConfig>()`: two authorities, withheld amount, two TransferFee (8 + 8 + 2)
+const TFC_LEN: usize = 32 + 32 + 8 + 18 + 18;
+const MINT_LEN: usize = MINT_TLV_START + 4 + TFC_LEN;
+const X_TRANSFER_FEE_CONFIG: u16 = 1;
+const X_MEMO_TRANSFER: u16 = 8;
+const X_TRANSFER_HOOK: u16 = 14;
+
+/// (epoch, maximum_fee, transfer_fee_basis_points) as stored in the extension (little endian, unaligned)
+#[repr(C)]
+#[derive(Clone, Copy)]
+struct FeeBytes {
+    epoch: [u8; 8],
+    maximum_fee: [u8; 8],
+    bps: [u8; 2],
+}
+#[derive(Clone, Copy, PartialEq, Eq)]
+struct Fee {
+    epoch: u64,
+    maximum_fee: u64,
+    bps: u16,
+}
+impl FeeBytes {
+    fn any() -> Self {
+        FeeBytes { epoch: kani::any(), maximum_fee: kani::any(), bps: kani::any() }
+    }
+    fn fee(&self) -> Fee {
+        Fee {
+            epoch: u64::from_le_bytes(self.epoch),
+            maximum_fee: u64::from_le_bytes(self.maximum_fee),
+            bps: u16::from_le_bytes(self.bps),
+        }
+    }
+}
+fn fee_of(f: &TransferFee) -> Fee {
+    Fee { epoch: u64::from(f.epoch), maximum_fee: u64::from(f.maximum_fee), bps: u16::from(f.transfer_fee_basis_points) }
+}
+
+/// a Token-2022 mint account image with exactly one TLV entry of `TFC_LEN` value bytes. A struct of small byte arrays
+/// (every byte keeps its own SSA symbol); the program sees one contiguous `[u8; MINT_LEN]`.
+#[repr(C)]
+#[derive(Clone, Copy)]
+struct MintImage {
+    mint_authority_tag: [u8; 4],
+    mint_authority: [u8; 32],
+    supply: [u8; 8],
+    decimals: u8,
+    is_initialized: u8,
+    freeze_authority_tag: [u8; 4],
+    freeze_authority: [u8; 32],
+    pad_a: [u8; 42],
+    pad_b: [u8; 41],
+    account_type: u8,
+    tlv_type: [u8; 2],
+    tlv_len: [u8; 2],
+    transfer_fee_config_authority: [u8; 32],
+    withdraw_withheld_authority: [u8; 32],
+    withheld_amount: [u8; 8],
+    older: FeeBytes,
+    newer: FeeBytes,
+}
+impl MintImage {
+    /// base fields, entry type number and the whole extension value symbolic. Validity predicates (needed for Anchor to
+    /// deserialize `InterfaceAccount<Mint>` at all, as every v2 instruction does before the fee code runs):
+    /// is_initialized = 1, COption tags in {0,1} (fixed to "present"), zero padding, account type = Mint. The entry
+    /// length is pinned to `TFC_LEN` (Token-2022 allocates exactly that for type 1; keeps the TLV walk concrete).
+    fn any() -> Self {
+        assert!(core::mem::size_of::<Self>() == MINT_LEN);
+        MintImage {
+            mint_authority_tag: [1, 0, 0, 0],
+            mint_authority: kani::any(),
+            supply: kani::any(),
+            decimals: kani::any(),
+            is_initialized: 1,
+            freeze_authority_tag: [1, 0, 0, 0],
+            freeze_authority: kani::any(),
+            pad_a: [0; 42],
+            pad_b: [0; 41],
+            account_type: 1,
+            tlv_type: kani::any(),
+            tlv_len: (TFC_LEN as u16).to_le_bytes(),
+            transfer_fee_config_authority: kani::any(),
+            withdraw_withheld_authority: kani::any(),
+            withheld_amount: kani::any(),
+            older: FeeBytes::any(),
+            newer: FeeBytes::any(),
+        }
+    }
+    fn entry_type(&self) -> u16 {
+        u16::from_le_bytes(self.tlv_type)
+    }
+    fn bytes_mut(&mut self) -> &mut [u8] {
+        unsafe { core::slice::from_raw_parts_mut(self as *mut Self as *mut u8, MINT_LEN) }
+    }
+}
+
+/// the rule of the property ("older/newer epoch schedule"): the newer fee applies from its epoch on
+fn ref_epoch_fee(clock_epoch: u64, older: Fee, newer: Fee) -> Fee {
+    if clock_epoch >= newer.epoch {
+        newer
+    } else {
+        older
+    }
+}
+
+// ---------------------------------------------------------------------------------------------
+// stubs: the cluster clock. The epoch is drawn by the harness (before the code under test) and handed out here.
+static mut CLOCK_EPOCH: u64 = 0;
+static mut CLOCK_CALLS: u8 = 0;
+
+/// `<solana Clock as Sysvar>::get` (a syscall on chain): succeeds with epoch = `CLOCK_EPOCH`; the other fields are not
+/// read by the code under test
+fn stub_anchor_clock_get() -> core::result::Result<Clock, ProgramError> {
+    unsafe {
+        CLOCK_CALLS += 1;
+        Ok(Clock { slot: 0, epoch_start_timestamp: 0, epoch: CLOCK_EPOCH, leader_schedule_epoch: 0, unix_timestamp: 0 })
+    }
+}
+
+fn stub_pino_clock_get() -> core::result::Result<pinocchio::sysvars::clock::Clock, pinocchio::program_error::ProgramError> {
+    unsafe {
+        CLOCK_CALLS += 1;
+        Ok(pinocchio::sysvars::clock::Clock {
+            slot: 0,
+            epoch_start_timestamp: 0,
+            epoch: CLOCK_EPOCH,
+            leader_schedule_epoch: 0,
+            unix_timestamp: 0,
+        })
+    }
+}
+
+/// observation point for the Pinocchio side: `pino_get_epoch_transfer_fee` is private; its only consumer in
+/// `pino_calculate_transfer_fee_excluded_amount` is `epoch_transfer_fee.calculate_fee(amount)`. This replacement
+/// records the `TransferFee` it is called on and charges no fee (the fee arithmetic is Engine M's part).
+static mut PINO_FEE_SEEN: u8 = 0;
+static mut PINO_FEE: (u64, u64, u16) = (0, 0, 0);
+fn stub_record_calculate_fee(this: &TransferFee, _pre_fee_amount: u64) -> Option<u64> {
+    unsafe {
+        PINO_FEE_SEEN += 1;
+        PINO_FEE = (u64::from(this.epoch), u64::from(this.maximum_fee), u16::from(this.transfer_fee_basis_points));
+    }
+    Some(0)
+}
+
+// ---------------------------------------------------------------------------------------------
+/// outcome of get_epoch_transfer_fee on an image: 0 = Err, 1 = Ok(None), 2 = Ok(Some(fee))
+fn anchor_epoch_fee(img: &mut MintImage, key: &Pubkey, owner: &Pubkey) -> (u8, Fee) {
+    let mut lamports = 1u64;
+    let ai = AccountInfo::new(key, false, false, &mut lamports, img.bytes_mut(), owner, false, 0);
+    let mint = match InterfaceAccount::<IMint>::try_from(&ai) {
+        Ok(m) => m,
+        Err(e) => {
+            core::mem::forget(e);
+            panic!("mint image must deserialize");
+        }
+    };
+    let r = ::whirlpool::util::v2::token::get_epoch_transfer_fee(&mint);
+    let out = match &r {
+        Ok(Some(f)) => (2, fee_of(f)),
+        Ok(None) => (1, Fee { epoch: 0, maximum_fee: 0, bps: 0 }),
+        Err(_) => (0, Fee { epoch: 0, maximum_fee: 0, bps: 0 }),
+    };
+    core::mem::forget(r);
+    out
+}
+
+/// raw account memory as the runtime lays it out for Pinocchio (88-byte header, then the data)
+#[repr(C)]
+struct RawMint {
+    borrow_state: u8,
+    is_signer: u8,
+    is_writable: u8,
+    executable: u8,
+    resize_delta: i32,
+    key: [u8; 32],
+    owner: [u8; 32],
+    lamports: u64,
+    data_len: u64,
+    data: MintImage,
+}
+unsafe fn pino_ai(r: *mut RawMint) -> pinocchio::account_info::AccountInfo {
+    let mut slot = core::mem::MaybeUninit::<pinocchio::account_info::AccountInfo>::uninit();
+    (slot.as_mut_ptr() as *mut *mut RawMint).write(r);
+    slot.assume_init()
+}
+
+/// outcome of the Pinocchio selection on an image of `data_len` bytes, observed through
+/// pino_calculate_transfer_fee_excluded_amount(mint, amount) with the recording calculate_fee:
+/// 0 = Err, 1 = no fee selected (amount passes through), 2 = fee selected (recorded)
+fn pino_epoch_fee(img: &MintImage, key: [u8; 32], owner: [u8; 32], data_len: usize, amount: u64) -> (u8, Fee) {
+    let mut raw = RawMint {
+        borrow_state: 0xff,
+        is_signer: 0,
+        is_writable: 0,
+        executable: 0,
+        resize_delta: 0,
+        key,
+        owner,
+        lamports: 1,
+        data_len: data_len as u64,
+        data: *img,
+    };
+    let info = unsafe { pino_ai(&mut raw as *mut RawMint) };
+    unsafe {
+        PINO_FEE_SEEN = 0;
+    }
+    let r = ::whirlpool::pinocchio::ported::util_token::pino_calculate_transfer_fee_excluded_amount(&info, amount);
+    let seen = unsafe { PINO_FEE_SEEN };
+    let rec = unsafe { PINO_FEE };
+    let out = match &r {
+        Ok(x) => {
+            // stub charges nothing: the amount passes through on both paths
+            assert!(x.amount == amount && x.transfer_fee == 0);
+            assert!(seen <= 1);
+            if seen == 1 {
+                (2, Fee { epoch: rec.0, maximum_fee: rec.1, bps: rec.2 })
+            } else {
+                (1, Fee { epoch: 0, maximum_fee: 0, bps: 0 })
+            }
+        }
+        Err(_) => (0, Fee { epoch: 0, maximum_fee: 0, bps: 0 }),
+    };
+    core::mem::forget(r);
+    out
+}
+
+/// get_epoch_transfer_fee(&InterfaceAccount<Mint>) on a real mint image with one 108-byte TLV entry (entry type number, both authorities, withheld amount, older and newer (epoch, maximum_fee, basis points) all symbolic; mint key, base fields symbolic), owner symbolic in {SPL Token, Token-2022}, Clock::get stubbed to a symbolic epoch: SPL-owned => Ok(None) without reading the clock; Token-2022 with a TransferFeeConfig entry => Ok(Some(f)), f = newer if clock.epoch >= newer.epoch else older (all three fields); Token-2022 whose entry is any other type number (incl. uninitialized / unknown) => Ok(None)
+// @verif prop=C16 tier=quick timeout=300 unwindset=memcmp.0:85
+#[kani::proof]
+#[kani::unwind(4)]
+#[kani::stub(alloc::fmt::format, stub_format)]
+#[kani::stub(<anchor_lang::error::Error as core::convert::From<::whirlpool::errors::ErrorCode>>::from, stub_err_from_code)]
+#[kani::stub(<anchor_lang::error::Error as core::convert::From<anchor_lang::error::ErrorCode>>::from, stub_err_from_anchor_code)]
+#[kani::stub(<anchor_lang::prelude::Clock as anchor_lang::solana_program::sysvar::Sysvar>::get, stub_anchor_clock_get)]
+fn c16_epoch_transfer_fee_choice() {
+    let mut img = MintImage::any();
+    let key: [u8; 32] = kani::any();
+    let owner_is_token: bool = kani::any();
+    let clock_epoch: u64 = kani::any();
+    unsafe {
+        CLOCK_EPOCH = clock_epoch;
+    }
+    let older = img.older.fee();
+    let newer = img.newer.fee();
+    let ty = img.entry_type();
+    let key_pk = Pubkey::new_from_array(key);
+    let owner = if owner_is_token { anchor_spl::token::ID } else { anchor_spl::token_2022::ID };
+
+    let (kind, f) = anchor_epoch_fee(&mut img, &key_pk, &owner);
+    let clock_calls = unsafe { CLOCK_CALLS };
+
+    if owner_is_token {
+        assert!(kind == 1, "SPL Token mint: no transfer fee");
+        assert!(clock_calls == 0);
+    } else if ty == X_TRANSFER_FEE_CONFIG {
+        assert!(kind == 2, "Token-2022 mint with TransferFeeConfig: a fee is selected");
+        assert!(clock_calls == 1);
+        let want = ref_epoch_fee(clock_epoch, older, newer);
+        assert!(f.epoch == want.epoch && f.maximum_fee == want.maximum_fee && f.bps == want.bps, "epoch rule");
+    } else {
+        assert!(kind == 1, "Token-2022 mint without TransferFeeConfig: no transfer fee");
+    }
+    kani::cover!(kind == 2 && clock_epoch >= newer.epoch && newer != older, "newer fee selected");
+    kani::cover!(kind == 2 && clock_epoch < newer.epoch && newer != older, "older fee selected");
+    kani::cover!(kind == 2 && clock_epoch == newer.epoch && newer != older, "boundary epoch selects newer");
+    kani::cover!(kind == 1 && owner_is_token && ty == X_TRANSFER_FEE_CONFIG, "SPL-owned: None");
+    kani::cover!(kind == 1 && !owner_is_token && ty == 3, "Token-2022 with another extension: None");
+    kani::cover!(kind == 1 && !owner_is_token && ty == 0, "Token-2022 with uninitialized TLV: None");
+}
+
+/// Token-2022 mint of exactly 82 bytes (no TLV area at all), base fields symbolic: Ok(None), clock not read
+// @verif prop=C16 tier=quick timeout=300 unwindset=memcmp.0:85
+#[kani::proof]
+#[kani::unwind(4)]
+#[kani::stub(alloc::fmt::format, stub_format)]
+#[kani::stub(<anchor_lang::error::Error as core::convert::From<::whirlpool::errors::ErrorCode>>::from, stub_err_from_code)]
+#[kani::stub(<anchor_lang::error::Error as core::convert::From<anchor_lang::error::ErrorCode>>::from, stub_err_from_anchor_code)]
+#[kani::stub(<anchor_lang::prelude::Clock as anchor_lang::solana_program::sysvar::Sysvar>::get, stub_anchor_clock_get)]
+fn c16_epoch_transfer_fee_plain_2022_mint() {
+    let mut img = MintImage::any();
+    let key: [u8; 32] = kani::any();
+    let clock_epoch: u64 = kani::any();
+    unsafe {
+        CLOCK_EPOCH = clock_epoch;
+    }
+    let key_pk = Pubkey::new_from_array(key);
+    let owner = anchor_spl::token_2022::ID;
+    let mut lamports = 1u64;
+    let ai = AccountInfo::new(&key_pk, false, false, &mut lamports, &mut img.bytes_mut()[..82], &owner, false, 0);
+    let mint = match InterfaceAccount::<IMint>::try_from(&ai) {
+        Ok(m) => m,
+        Err(e) => {
+            core::mem::forget(e);
+            panic!("mint image must deserialize");
+        }
+    };
+    let r = ::whirlpool::util::v2::token::get_epoch_transfer_fee(&mint);
+    let none = matches!(&r, Ok(None));
+    core::mem::forget(r);
+    assert!(none, "82-byte Token-2022 mint: no transfer fee");
+    assert!(unsafe { CLOCK_CALLS } == 0);
+    kani::cover!(none, "Ok(None)");
+}
+
+/// same bytes through both implementations: Pinocchio (load_token_program_account_unchecked + parse_token_extensions + private pino_get_epoch_transfer_fee, observed at the TransferFee handed to calculate_fee inside pino_calculate_transfer_fee_excluded_amount) selects the fee by the same rule, and Anchor get_epoch_transfer_fee selects the same fee / None. Token-2022-owned 278-byte image as in c16_epoch_transfer_fee_choice (entry type symbolic), symbolic clock epoch and amount; plus SPL-Token-owned 82-byte mint (the only size an SPL mint has) => no fee on both sides
+// @verif prop=C16 tier=quick timeout=300 unwindset=memcmp.0:85
+#[kani::proof]
+#[kani::unwind(4)]
+#[kani::stub(alloc::fmt::format, stub_format)]
+#[kani::stub(<anchor_lang::error::Error as core::convert::From<::whirlpool::errors::ErrorCode>>::from, stub_err_from_code)]
+#[kani::stub(<anchor_lang::error::Error as core::convert::From<anchor_lang::error::ErrorCode>>::from, stub_err_from_anchor_code)]
+#[kani::stub(<::whirlpool::pinocchio::errors::UnifiedError as core::convert::From<::whirlpool::errors::ErrorCode>>::from, stub_unified_from_code)]
+#[kani::stub(<anchor_lang::prelude::Clock as anchor_lang::solana_program::sysvar::Sysvar>::get, stub_anchor_clock_get)]
+#[kani::stub(<pinocchio::sysvars::clock::Clock as pinocchio::sysvars::Sysvar>::get, stub_pino_clock_get)]
+#[kani::stub(anchor_spl::token_2022::spl_token_2022::extension::transfer_fee::TransferFee::calculate_fee, stub_record_calculate_fee)]
+fn c16_pino_epoch_transfer_fee_choice() {
+    let mut img = MintImage::any();
+    let key: [u8; 32] = kani::any();
+    let clock_epoch: u64 = kani::any();
+    let amount: u64 = kani::any();
+    unsafe {
+        CLOCK_EPOCH = clock_epoch;
+    }
+    let older = img.older.fee();
+    let newer = img.newer.fee();
+    let ty = img.entry_type();
+    let key_pk = Pubkey::new_from_array(key);
+
+    // Token-2022-owned, full image
+    let (pk, pf) = pino_epoch_fee(&img, key, anchor_spl::token_2022::ID.to_bytes(), MINT_LEN, amount);
+    let pino_clock_calls = unsafe { CLOCK_CALLS };
+    let (ak, af) = anchor_epoch_fee(&mut img, &key_pk, &anchor_spl::token_2022::ID);
+
+    // The entry length is pinned to 108 bytes. Token-2022 gives TransferHook (14) and MemoTransfer (8) entries their
+    // own fixed lengths (64 / 1), so an entry of one of these two types with 108 value bytes is a malformed image that
+    // no Token-2022 instruction produces. On it the two parsers differ (Pinocchio checks the length of every entry it
+    // knows and returns InvalidAccountData, spl-token-2022 only looks at the entry it searches for): only "no fee is
+    // selected" is asserted there, not agreement.
+    let malformed = ty == X_TRANSFER_HOOK || ty == X_MEMO_TRANSFER;
+    if ty == X_TRANSFER_FEE_CONFIG {
+        assert!(pk == 2, "pino: a fee is selected");
+        assert!(pino_clock_calls == 1);
+        let want = ref_epoch_fee(clock_epoch, older, newer);
+        assert!(pf.epoch == want.epoch && pf.maximum_fee == want.maximum_fee && pf.bps == want.bps, "pino epoch rule");
+    } else if malformed {
+        assert!(pk != 2, "pino: no TransferFeeConfig entry, no fee selected");
+    } else {
+        assert!(pk == 1, "pino: no TransferFeeConfig entry, no fee");
+        assert!(pino_clock_calls == 0);
+    }
+    if !malformed {
+        assert!(ak == pk, "Anchor and Pinocchio agree on whether a fee applies");
+        assert!(af.epoch == pf.epoch && af.maximum_fee == pf.maximum_fee && af.bps == pf.bps, "Anchor and Pinocchio select the same fee");
+    }
+
+    // SPL-Token-owned mint: 82 bytes
+    let (sk, _) = pino_epoch_fee(&img, key, anchor_spl::token::ID.to_bytes(), 82, amount);
+    assert!(sk == 1, "pino: SPL Token mint has no transfer fee");
+
+    kani::cover!(pk == 2 && clock_epoch >= newer.epoch && newer != older, "pino: newer fee selected");
+    kani::cover!(pk == 2 && clock_epoch < newer.epoch && newer != older, "pino: older fee selected");
+    kani::cover!(pk == 1 && ak == 1 && ty == 3, "both: another extension, no fee");
+    kani::cover!(pk == 2 && ak == 2 && clock_epoch == newer.epoch && newer != older, "both: boundary epoch selects newer");
+}
+
+/// twin: the wrong rule (newer only when clock.epoch > newer.epoch) must be refuted (boundary epoch)
+// @verif prop=C16 tier=quick timeout=300 twin unwindset=memcmp.0:85
+#[kani::proof]
+#[kani::unwind(4)]
+#[kani::stub(alloc::fmt::format, stub_format)]
+#[kani::stub(<anchor_lang::error::Error as core::convert::From<::whirlpool::errors::ErrorCode>>::from, stub_err_from_code)]
+#[kani::stub(<anchor_lang::error::Error as core::convert::From<anchor_lang::error::ErrorCode>>::from, stub_err_from_anchor_code)]
+#[kani::stub(<anchor_lang::prelude::Clock as anchor_lang::solana_program::sysvar::Sysvar>::get, stub_anchor_clock_get)]
+fn c16_twin_must_fail() {
+    let mut img = MintImage::any();
+    let key: [u8; 32] = kani::any();
+    let clock_epoch: u64 = kani::any();
+    unsafe {
+        CLOCK_EPOCH = clock_epoch;
+    }
+    img.tlv_type = X_TRANSFER_FEE_CONFIG.to_le_bytes();
+    let older = img.older.fee();
+    let newer = img.newer.fee();
+    let key_pk = Pubkey::new_from_array(key);
+    let (kind, f) = anchor_epoch_fee(&mut img, &key_pk, &anchor_spl::token_2022::ID);
+    kani::cover!(kind == 2, "fee selected");
+    let wrong = if clock_epoch > newer.epoch { newer } else { older };
+    assert!(kind != 2 || f == wrong, "twin: strict > epoch rule");
+}
